@@ -36,6 +36,10 @@ Definition S_select (inv : bool) (Ssolve Tm : Matc) (G : nat) : Matc :=
   if inv then Ssolve else geom_explicit Tm G.
 Definition S_list (no G : nat) (phases : list Cc) (L : list (list T)) (inv : list bool) (Ss : list Matc) : list Matc :=
   build no (fun o => S_select (nth o inv false) (nth o Ss []) (T_of (nth o phases (c0 Op)) L) G).
+(* the same list assembled from the all-explicit list (Proofs/Periodic.v: S_list_from_eq); lets the
+   correspondence check share the explicit sums between its observables *)
+Definition S_list_from (no : nat) (inv : list bool) (Ss Sexp : list Matc) : list Matc :=
+  build no (fun o => if nth o inv false then nth o Ss [] else nth o Sexp []).
 (* control_matrix_tot = (control_matrix.transpose(2, 0, 1) @ S).transpose(1, 2, 0) *)
 Definition cm_apply (na no : nat) (cm : Arr3 (T:=T)) (Sl : list Matc) : Arr3 (T:=T) :=
   a3build na n no (fun a l o => let S := nth o Sl [] in
